@@ -47,6 +47,7 @@
 #include <sstream>
 #include <string>
 #include <unordered_map>
+#include <map>
 #include <vector>
 
 using namespace xalanc;
@@ -147,6 +148,8 @@ public:
     std::unordered_map<void*, long>  freed;   // quarantined (never reused): pointer -> id
     std::string failSite;
     bool        reallyFree = std::getenv("C19_REALLY_FREE") != 0;
+    bool        recordArena = false;                 // count run: which arena allocators created blocks
+    std::map<std::string, long>  arenaAllocs;        // allocator type -> allocation requests made under allocateBlock()
 
     FaultManager() : phase(P_NONE), failPhase(P_NONE), failAt(0), fired(false), excKind(EXC_OOM),
                      foreign(0), dbl(0), nullFrees(0), nextId(0), tracing(false)
@@ -167,6 +170,26 @@ public:
             if (tracing) trace.push_back(LONG_MIN);
             if (excKind == EXC_BADALLOC) throw std::bad_alloc();
             throw xercesc::OutOfMemoryException();
+        }
+        if (recordArena)
+        {
+            const std::string st = stackString(2, 10);
+            if (st.find("allocateBlock") != std::string::npos)
+            {
+                // innermost frame of a concrete allocator class (XStringAllocator::createString, XalanElemTextAllocator::create, ...)
+                std::string name = "?";
+                size_t pos = 0;
+                while (pos < st.size())
+                {
+                    size_t bar = st.find('|', pos);
+                    std::string fr = st.substr(pos, bar == std::string::npos ? std::string::npos : bar - pos);
+                    size_t a = fr.find("Allocator::");
+                    if (a != std::string::npos && fr.find("ArenaAllocator<>") == std::string::npos) { name = fr.substr(0, a + 9); break; }
+                    if (bar == std::string::npos) break;
+                    pos = bar + 1;
+                }
+                ++arenaAllocs[name];
+            }
         }
         void* p = std::malloc(size ? size : 1);
         if (p == 0) { emit("fatal=real-oom\n"); _exit(3); }
@@ -434,6 +457,7 @@ int main(int argc, char** argv)
         {
             FaultManager fm;
             fm.tracing = traceFile != 0 && round == 1;
+            fm.recordArena = round == 1;
             Result r;
             int save = g_out; g_out = 2;
             int devnull = ::open("/dev/null", 1); if (devnull >= 0) g_out = devnull;
@@ -444,7 +468,27 @@ int main(int argc, char** argv)
             {
                 std::cout << "counts";
                 for (int p = P_CTOR; p <= P_DESTROY; ++p) std::cout << " n_" << phaseNames[p] << "=" << fm.allocs[p];
-                std::cout << summary(fm, r) << " outhash=" << hashOf(r.output) << " outlen=" << r.output.size() << "\n";
+                std::cout << summary(fm, r) << " outhash=" << hashOf(r.output) << " outlen=" << r.output.size();
+                // the compiled stylesheet alone: compile, destroyStylesheet, nothing may stay behind (ownership lists of
+                // StylesheetConstructionContextDefault), then the transformer
+                {
+                    FaultManager fm2;
+                    void* mem2 = std::malloc(sizeof(XalanTransformer));
+                    XalanTransformer* t2 = ::new (mem2) XalanTransformer(fm2);
+                    t2->setWarningStream(&warn);
+                    const long live0 = long(fm2.live.size());
+                    const XalanCompiledStylesheet* css2 = 0;
+                    std::string how = guarded([&]() { std::istringstream in(sc.xsl); XSLTInputSource is(&in, fm2); return t2->compileStylesheet(is, css2); });
+                    if (css2 != 0) t2->destroyStylesheet(css2);
+                    std::cout << " cssonly=" << how << " cssleak=" << (long(fm2.live.size()) - live0);
+                    t2->~XalanTransformer(); std::free(mem2);
+                    std::cout << " cssfinal=" << fm2.live.size() << " cssbad=" << (fm2.foreign + fm2.dbl);
+                }
+                std::cout << " arena=";
+                for (std::map<std::string, long>::const_iterator i = fm.arenaAllocs.begin(); i != fm.arenaAllocs.end(); ++i)
+                    std::cout << (i == fm.arenaAllocs.begin() ? "" : ",") << i->first << ":" << i->second;
+                if (fm.arenaAllocs.empty()) std::cout << "-";
+                std::cout << "\n";
                 if (traceFile) dumpTrace(fm, traceFile);
             }
         }
